@@ -387,7 +387,11 @@ func (g *gen) behC07() M {
 		st["nowait"] = true
 		steps = append(steps, st, send(M{"t": "S"}))
 	}
-	return M{"cfg": baseCfg(), "steps": steps}
+	cfg := baseCfg()
+	if g.chance(0.4) {
+		cfg["cache"] = "custom" // the server resolves names through user-supplied caches: their calls are recorded
+	}
+	return M{"cfg": cfg, "steps": steps}
 }
 
 var c08Types = []int{16, 21, 23, 20, 701, 25, 1043, 17}
